@@ -47,6 +47,8 @@ structure Flags where
   ckpt : Bool
   structured : Bool
   deleteChunks : Bool
+  /-- `trainer_config.model_ckpt.save_last` (schema default `None` = `false`); `save_top_k` is fixed to 1. -/
+  saveLast : Bool
   deriving DecidableEq, Repr
 
 /-- Path classes under the output directories that carry modelled content. -/
@@ -158,13 +160,14 @@ def resavePhase (v : Version) (f : Flags) : List Event :=
 def chunkPhase (f : Flags) : List Event :=
   if f.fw = .npChunks then [.write .trainChunks .data, .write .valChunks .data] else []
 
-/-- One validation epoch of `ModelCheckpoint(save_top_k=1, save_last=True, filename="best")`
+/-- One validation epoch of `ModelCheckpoint(save_top_k=1, save_last=f.saveLast, filename="best")`
 (Lightning as installed: `on_validation_end` saves `last.ckpt` only "if a checkpoint was actually
-saved in this step"): when the monitored loss improved, `best.ckpt` is rewritten and then
-`last.ckpt`; otherwise nothing is written. -/
+saved in this step"): when the monitored loss improved, `best.ckpt` is rewritten and then — if
+`save_last` — `last.ckpt`; otherwise nothing is written. -/
 def ckptRound (v : Version) (f : Flags) (improved : Bool) : List Event :=
   if improved then
-    [.write .bestCkpt (cfg .used (blankTrain v f) false), .write .lastCkpt (cfg .used (blankTrain v f) false)]
+    .write .bestCkpt (cfg .used (blankTrain v f) false) ::
+      (if f.saveLast then [.write .lastCkpt (cfg .used (blankTrain v f) false)] else [])
   else []
 
 def fitPhase (v : Version) (f : Flags) (rounds : List Bool) : List Event :=
@@ -183,6 +186,13 @@ def traceG (v : Version) (f : Flags) (rounds : List Bool) : List Event :=
 
 /-- The 1-epoch run used by the correspondence check — repaired code. -/
 def trace (f : Flags) : List Event := traceG .repaired f [true]
+
+/-- A run aborted inside `trainer.fit` after the validation epochs `rounds` (an exception, or a
+Ctrl-C — the installed Lightning turns `KeyboardInterrupt` into `SystemExit(1)` after teardown, so
+`train()`'s `except KeyboardInterrupt` never fires): the `finally` block still runs (run_id,
+re-save, chunk deletion), then the exception leaves `train()`. -/
+def traceAbort (v : Version) (f : Flags) (rounds : List Bool) : List Event :=
+  traceG v f rounds ++ [.raise]
 
 /-- The 1-epoch run of the code as it is on the pinned tree. -/
 def asIs (f : Flags) : List Event := traceG .asIs f [true]
@@ -263,29 +273,40 @@ def age (fs : FS) : FS := fun p => (fs p).map Content.aged
 /-- One validation epoch writing to given checkpoint paths. -/
 def ckptRoundP (pb pl : Path) (v : Version) (f : Flags) (improved : Bool) : List Event :=
   if improved then
-    [.write pb (cfg .used (blankTrain v f) false), .write pl (cfg .used (blankTrain v f) false)]
+    .write pb (cfg .used (blankTrain v f) false) ::
+      (if f.saveLast then [.write pl (cfg .used (blankTrain v f) false)] else [])
   else []
 
 def fitPhaseP (pb pl : Path) (v : Version) (f : Flags) (rounds : List Bool) : List Event :=
   if f.ckpt then rounds.flatMap (ckptRoundP pb pl v f) else []
 
-def bestPath (aHadCkpt : Bool) : Path := if aHadCkpt then .bestCkptV1 else .bestCkpt
-def lastPath (aHadCkpt : Bool) : Path := if aHadCkpt then .lastCkptV1 else .lastCkpt
+def bestPath (aLeftBest : Bool) : Path := if aLeftBest then .bestCkptV1 else .bestCkpt
+def lastPath (aLeftLast : Bool) : Path := if aLeftLast then .lastCkptV1 else .lastCkpt
 
-/-- The trace of run B in a folder where an earlier run did (`aHadCkpt`) or did not leave checkpoints. -/
-def traceS (v : Version) (aHadCkpt : Bool) (f : Flags) (rounds : List Bool) : List Event :=
+/-- Did a completed run A leave `best.ckpt` / `last.ckpt`? -/
+def leftBest (fA : Flags) : Bool := fA.ckpt
+def leftLast (fA : Flags) : Bool := fA.ckpt && fA.saveLast
+
+/-- The trace of run B in a folder where `best.ckpt` (`aBest`) / `last.ckpt` (`aLast`) already exist. -/
+def traceS (v : Version) (aBest aLast : Bool) (f : Flags) (rounds : List Bool) : List Event :=
   initPhase v f ++ resavePhase v f ++ chunkPhase f
-    ++ fitPhaseP (bestPath aHadCkpt) (lastPath aHadCkpt) v f rounds ++ finallyPhase v f
+    ++ fitPhaseP (bestPath aBest) (lastPath aLast) v f rounds ++ finallyPhase v f
 
 /-- File system when run B starts in run A's folder. -/
 def sameStart (v : Version) (fA : Flags) (rA : List Bool) : FS := age (fsAfter (traceG v fA rA))
 
 /-- File system at crash point `n` of run B (A's leftovers mixed with what B has written so far). -/
 def fsSameAt (v : Version) (fA : Flags) (rA : List Bool) (fB : Flags) (rB : List Bool) (n : Nat) : FS :=
-  fsFrom (sameStart v fA rA) ((traceS v fA.ckpt fB rB).take n)
+  fsFrom (sameStart v fA rA) ((traceS v (leftBest fA) (leftLast fA) fB rB).take n)
 
 def fsSameAfter (v : Version) (fA : Flags) (rA : List Bool) (fB : Flags) (rB : List Bool) : FS :=
-  fsFrom (sameStart v fA rA) (traceS v fA.ckpt fB rB)
+  fsFrom (sameStart v fA rA) (traceS v (leftBest fA) (leftLast fA) fB rB)
+
+/-- Run B started in the folder of a run A that **died** at its crash point `k` (`aBest`/`aLast`:
+whether A had got as far as writing `best.ckpt` / `last.ckpt`), at B's crash point `n`. -/
+def fsCrashedAt (v : Version) (fA : Flags) (rA : List Bool) (k : Nat) (aBest aLast : Bool)
+    (fB : Flags) (rB : List Bool) (n : Nat) : FS :=
+  fsFrom (age (fsAt (traceG v fA rA) k)) ((traceS v aBest aLast fB rB).take n)
 
 /-! ## Serialisation (driver) -/
 
